@@ -70,6 +70,17 @@ NetF4 == [id |-> "F4-col-neg", fam |-> "col", ang |-> 150, rot |-> -40, ph |-> <
                       Bump(F4b, 3, 15), Bump(F4b, 3, 17), Bump(F4b, 1, 12), Bump(F4b, 1, 13),
                       <<0, 0, 0>>, Neg(Bump(F4b, 3, 11)) >>]
 
+\* weights larger than 1 (a transformer ratio, a station counted on two branches):
+\* 2 x1 + 3 x2 + x3 <= 50 A while the plain sum x1 + x2 + x3 <= 40 A is far from binding; angle 0
+F5b == <<10000000, 8000000, 6000000>>                \* weighted sum = 50 A, plain sum = 24 A
+NetF5 == [id |-> "F5-col-weights", fam |-> "col", ang |-> 0, rot |-> 0, ph |-> <<1, 1, 1>>, cd |-> 1,
+          cons |-> << [n |-> <<2, 3, 1>>, lim |-> 50000000], [n |-> <<1, 1, 1>>, lim |-> 40000000] >>,
+          upa |-> 1000000, sq |-> FALSE,
+          tols |-> <<TDef, TZero>>,
+          menu |-> << Bump(F5b, 3, -1), Bump(F5b, 3, 1), Bump(F5b, 3, 9), Bump(F5b, 3, 11),
+                      Bump(F5b, 1, 4), Bump(F5b, 1, 6), <<16000000, 8000000, 0>>, <<20000000, 0, 0>>,
+                      <<0, 0, 0>>, Neg(Bump(F5b, 3, 11)) >>]
+
 -----------------------------------------------------------------------------
 \* coarse networks (0.1 A).  Eisenstein triples: a^2 - ab + b^2 = 70^2 for (a,b) = (80,30), (80,50);
 \* a^2 + ab + b^2 = 130^2 for (70,80); 70^2 for (30,50).
@@ -132,8 +143,8 @@ NetP7 == [id |-> "P7-ll-quarters", fam |-> "ll", ang |-> 0, rot |-> 160, ph |-> 
                       <<0, 141, 0, 140>>, <<75, 10, 75, 10>>, <<0, 0, 0, 233>>, <<0, 0, 0, 234>>,
                       <<-60, 20, 30, -20>>, <<0, 0, 0, 0>> >>]
 
-NetsAll == <<NetF1, NetF2, NetF3, NetF4, NetP1, NetP2, NetP3, NetP4, NetP5, NetP6, NetP7>>
-NetsQuick == <<NetF1, NetF2, NetF3, NetP1, NetP2, NetP3, NetP5, NetP6>>
+NetsAll == <<NetF1, NetF2, NetF3, NetF4, NetF5, NetP1, NetP2, NetP3, NetP4, NetP5, NetP6, NetP7>>
+NetsQuick == <<NetF1, NetF2, NetF3, NetF5, NetP1, NetP2, NetP3, NetP5, NetP6>>
 
 DropsAll == {{}, {1}, {2, 3}}
 DropsQuick == {{}, {2}}
